@@ -48,7 +48,7 @@ Extraction "model.ml"
   B32.decode B32.decode_generic B32.encode B32.convert_bits B32.to_upper B32.BLECH32 B32.BLECH32M
   compute_entropy compute_asset compute_token new_from_input new_tx_issuance contract_json
   v0_add_issuance v0_add_reissuance v2_add_in_issuance v2_add_in_reissuance
-  get_issuance_asset_hash get_issuance_keys_hash unsigned_issuance extract_issuance unsigned_output expected_issuance
+  get_issuance_asset_hash get_issuance_keys_hash unsigned_issuance extract_issuance unsigned_pegin extract_pegin unsigned_output expected_issuance
   XC.check_encode XC.check_decode XC.bech_decode XC.bech_encode
   Addr.liquid Addr.regtest Addr.testnet Addr.n_id Addr.n_pkh Addr.n_sh Addr.n_conf Addr.n_bech32 Addr.n_blech32
   Addr.from_base58 Addr.to_base58 Addr.from_base58_conf Addr.to_base58_conf Addr.from_bech32 Addr.to_bech32
